@@ -9,7 +9,7 @@
     valid + size column = number of leaves below + heights never decrease: what the property demands of each
     dendrogram attribute. *)
 From Coq Require Import Permutation QArith.
-From SKN Require Import Base.Util Model.Dendrogram Model.Cuts Model.Hierarchy Model.Paris Proofs.DendroBase Proofs.HierarchyBase Proofs.HierarchyProofs Proofs.GetDendrogramProofs Proofs.TreeBuildProofs Proofs.SplitProofs Proofs.ParisProofs Proofs.ParisReducible Proofs.ParisWitness Proofs.C07Compose.
+From SKN Require Import Base.Util Model.Dendrogram Model.Cuts Model.Hierarchy Model.Paris Proofs.DendroBase Proofs.HierarchyBase Proofs.HierarchyProofs Proofs.GetDendrogramProofs Proofs.TreeBuildProofs Proofs.SplitProofs Proofs.ParisProofs Proofs.ParisReducible Proofs.ParisWitness Proofs.C07Compose Gen.ParisSrc.
 Close Scope Q_scope.
 
 (** * 1. reorder_dendrogram *)
@@ -181,6 +181,18 @@ Theorem paris_clamped_valid (R : rounding) (hinf : Q) (n : nat) (G : entries) (w
 Proof. exact (C07Compose.paris_clamped_valid R hinf n G wout win D m t). Qed.
 Print Assumptions paris_clamped_valid.
 
+(** The model of the CURRENT source ([paris_src_clamp]: regenerated from paris.pyx on every run), for any rounding —
+    in particular that of the compiled code: a good dendrogram PROVIDED the source clamps the heights (hypothesis
+    false on a tree with defect D25, where [paris_float_inversion] shows it is needed). *)
+Theorem paris_source_valid (R : rounding) (hinf : Q) (n : nat) (G : entries) (wout win : list Q) (D : dendrogram)
+        (m : option Q) (t : nat) :
+  paris_src_clamp = true ->
+  paris_core R paris_src_clamp hinf n G wout win = Some (Ok (D, m, t)) ->
+  (forall r, In r D -> (r_height r <= hinf)%Q) ->
+  exists D', reorder_dendrogram D = Ok D' /\ good_dendrogram n D'.
+Proof. exact (C07Compose.paris_source_valid R hinf n G wout win D m t). Qed.
+Print Assumptions paris_source_valid.
+
 (** * 5. split_dendrogram (bipartite input) *)
 
 Theorem split_dendrogram_valid (D : dendrogram) (n1 n2 : nat) :
@@ -231,16 +243,21 @@ Example louvain_hierarchy_example :
 Proof. split; [simpl; tauto|]. split; vm_compute; reflexivity. Qed.
 
 (** The hypotheses of [paris_reducible] hold on the D25 graph with its degree weights, and the run ends. *)
-Example paris_example :
+Example paris_hypotheses_example :
   graph_ok 6 ex_G /\ weights_ok 6 ex_w /\
-  match paris_core exact false 1000 6 ex_G ex_w ex_w with
-  | Some (Ok (D, _, _)) => valid 6 D && hmono 6 D && forallb (fun r => Qle_bool (r_height r) 1000) D
+  match paris_core exact false (1000 # 1)%Q 6 ex_G ex_w ex_w with
+  | Some (Ok (D, _, _)) => forallb (fun r => Qle_bool (r_height r) (1000 # 1)%Q) D = true
+  | _ => False
+  end.
+Proof. exact paris_reducible_example_hyps. Qed.
+
+Definition paris_example_check : bool :=
+  match paris_core exact false (1000 # 1)%Q 6 ex_G ex_w ex_w with
+  | Some (Ok (D, _, _)) => valid 6 D && hmono 6 D
   | _ => false
-  end = true.
-Proof.
-  split; [exact (proj1 paris_reducible_example_hyps)|]. split; [exact (proj1 (proj2 paris_reducible_example_hyps))|].
-  vm_compute. reflexivity.
-Qed.
+  end.
+Example paris_example : paris_example_check = true.
+Proof. vm_compute. reflexivity. Qed.
 
 Example split_example :
   let D := [(0, 2, (1 # 1)%Q, 2); (1, 3, (1 # 1)%Q, 2); (4, 5, (2 # 1)%Q, 4)] in
